@@ -64,6 +64,9 @@ def cases(tier, seed):
     from harness import wire as _w
     for pv, gv in ((3, 2), (5, 2), (0, 2), (1, 1), (6, 0)):
         cs.append({'fam': 'fault', 'T': 'T3', 'op': 'crafted', 'conn': 'probe', 'at': 'gexgroup', 'what': 'degenerate-group:p=%d' % pv, 'hex': _w.packet(_w.gex_group(pv, gv)).hex()})
+    # ... once only: the next probe connections are answered normally again (whatever the failed one left behind in the tool shows up there)
+    for conn, pv in ((1, 5), (2, 5), (2, 3), (3, 6)):
+        cs.append({'fam': 'fault', 'T': 'T3', 'op': 'crafted', 'conn': conn, 'at': 'gexgroup', 'what': 'degenerate-group-once:p=%d' % pv, 'hex': _w.packet(_w.gex_group(pv, 2)).hex()})
     for what, blob in (('rsa-zero-modulus', _w.string('ssh-rsa') + _w.mpint(65537) + _w.mpint(0)), ('type-only', _w.string('ssh-rsa')), ('empty-blob', b'')):
         cs.append({'fam': 'fault', 'T': 'T2', 'op': 'crafted', 'conn': 'probe', 'at': 'kexreply', 'what': 'hostkey:' + what, 'hex': _w.packet(_w.kex_reply(31, blob)).hex()})
     for beh in ('normal', 'accept-close', 'silent', 'stop-listening', 'serve-some-then-close', 'exceeded', 'slow', 'garbage'):
@@ -119,6 +122,14 @@ def check_footprint(r, p, kex, skip, viol, counters, client=False, ssh1=False, t
         nreq += n30 + n34
         if cn.idx == 0 and (n30 or n34 or n32) and not client:
             viol.append(_v('C19/kex-request-on-first-connection:%s' % tag, 'a key-exchange computation request was sent on the initial handshake connection', types=types))
+        # a computation request belongs to a probe exchange: it follows the tool's own KEXINIT on that connection (and a group-exchange init follows its request)
+        firstreq = min([types.index(t) for t in (30, 32, 34) if t in types] or [len(types)])
+        if firstreq < len(types) and 20 not in types[:firstreq]:
+            viol.append(_v('C19/kex-request-before-kexinit:%s' % tag, 'a key-exchange computation request was sent on a connection before the tool\'s KEXINIT, outside of any probe exchange', types=types, conn=cn.idx))
+        elif 32 in types and 34 not in types[:types.index(32)]:
+            viol.append(_v('C19/gex-init-without-request:%s' % tag, 'a group-exchange init was sent without a preceding group-exchange request on that connection', types=types, conn=cn.idx))
+        if firstreq < len(types):
+            counters['request_order_checks'] = counters.get('request_order_checks', 0) + 1
         if n30 > 1 or n34 > 1 or n32 > 1 or (n30 and n34):
             viol.append(_v('C19/several-kex-requests-on-one-connection:%s' % tag, 'more than one key exchange was started on one connection', types=types, conn=cn.idx))
     counters['kex_requests_seen'] = nreq
